@@ -10,7 +10,7 @@
         q    : the query, or "-" for none
    Reference r = [kind, scheme, host, port, segs, q]  (fragment already dropped)
         kind : "abs" | "net" (//host/path) | "abspath" | "relpath" | "query" | "empty" | "bad"      *)
-EXTENDS Naturals, Sequences, FiniteSets
+EXTENDS Naturals, Sequences, FiniteSets, TLC
 
 RDClause(p, why, cond) == IF cond THEN {} ELSE {<<p, why>>}
 
@@ -96,7 +96,8 @@ HopFails(e) ==
           \cup RDClause("C14", "request line of the redirected request does not carry the target's path and query",
                         e.target = TargetOf(expect))
           \cup RDClause("C14", "Host header of the redirected request does not name the target's host",
-                        e.hostline = expect.host)
+                        \* "host" or "host:port" both name the host
+                        e.hostline \in {expect.host} \cup (IF expect.port # 0 THEN {expect.host \o ":" \o ToString(expect.port)} ELSE {}))
           \cup RDClause("C13", "Cookie of the previous request is present in the redirected request", ~e.cookie)
           \cup RDClause("C13", "Content-Length of the previous request is present in the redirected request", ~e.clen)
           \cup RDClause("C13", "Authorization sent although policy / original host / scheme do not allow it",
